@@ -112,6 +112,18 @@ func Universe() []UVal {
 		{Name: "time", Go: fixed, Small: true},
 		{Name: "timeptr", Go: &fixed},
 		{Name: "struct", Go: ds2, Small: true},
+		{Name: "anonstructA", Go: struct {
+			Name string
+			A    int
+		}{"anonA", 1}, Small: true},
+		{Name: "anonstructB", Go: struct{ B string }{"anonB"}, Small: true},
+		{Name: "localT1", Go: localT1()}, {Name: "localT2", Go: localT2()},
+		{Name: "arrany12f", Go: [2]any{1, 2.0}, Plain: true, V: Arr(Int(1), Float(2))},
+		{Name: "arranyf12", Go: [2]any{1.0, 2}, Plain: true, V: Arr(Float(1), Int(2))},
+		{Name: "arranyslice", Go: [1]any{[]int{1}}, Plain: true, V: Arr(Ints(1))},
+		{Name: "i65", Go: 65, Lit: "65", Plain: true, V: Int(65)},
+		{Name: "mctl", Go: map[string]any{"A": 1, "\x01": 2, "\x07": 3, "2": 4}, Small: true, Plain: true, V: Map(KV{"A", Int(1)}, KV{"\x01", Int(2)}, KV{"\x07", Int(3)}, KV{"2", Int(4)})},
+		{Name: "msizenil", Go: map[string]any{"size": nil, "a": 1}, Plain: true, V: Map(KV{"size", Nil}, KV{"a", Int(1)})},
 		{Name: "structptr", Go: &ds2, Small: true},
 		{Name: "nilstructptr", Go: nilPtr, Small: true},
 		{Name: "intptr", Go: &one}, {Name: "strptr", Go: &str},
@@ -155,4 +167,19 @@ func SmallUniverse() []UVal {
 		}
 	}
 	return out
+}
+
+// Two function-local struct types with the same name: their reflect names and
+// package paths coincide, which is exactly what a careless type-keyed cache confuses.
+func localT1() any {
+	type T struct {
+		Name string
+		A    int
+	}
+	return T{"t1", 1}
+}
+
+func localT2() any {
+	type T struct{ B string }
+	return T{"t2"}
 }
